@@ -316,3 +316,43 @@ func VH_C03_vmstack(n int) {
 	zzvrt.Cover("reached", true)
 	zzvrt.ObserveInt("depth", len(got))
 }
+
+// vm_stk_slice: _ cell:^Cell st_bits:(## 10) end_bits:(## 10) { st_bits <= end_bits } st_ref:(#<= 4)
+// end_ref:(#<= 4) { st_ref <= end_ref } = VmCellSlice.  A slice over a cell with nrefs references and 16
+// data bits, every valid window: the encoding is one reference to the cell plus 10+10+3+3 bits, and
+// decoding gives back the same window (bits and references) over the same cell.
+func VH_C03_vmcellslice(nrefs int) {
+	cell := boc.NewCell()
+	_ = cell.WriteUint(uint64(zzvrt.NondetU16("data")), 16)
+	for i := 0; i < nrefs; i++ {
+		ch := boc.NewCell()
+		_ = ch.WriteUint(uint64(i), 8)
+		_ = cell.AddRef(ch)
+	}
+	stBits, endBits := zzvrt.NondetInt("st-bits"), zzvrt.NondetInt("end-bits")
+	stRef, endRef := zzvrt.NondetInt("st-ref"), zzvrt.NondetInt("end-ref")
+	zzvrt.Assume(stBits >= 0)
+	zzvrt.Assume(stBits <= endBits)
+	zzvrt.Assume(endBits <= 16)
+	zzvrt.Assume(stRef >= 0)
+	zzvrt.Assume(stRef <= endRef)
+	zzvrt.Assume(endRef <= nrefs)
+	s := VmCellSlice{cell: cell, stBits: stBits, endBits: endBits, stRef: stRef, endRef: endRef}
+	c := boc.NewCell()
+	zzvrt.Assert("encode-ok", s.MarshalTLB(c, &Encoder{}) == nil)
+	spec := &vSpecBits{}
+	spec.uint(uint64(stBits), 10)
+	spec.uint(uint64(endBits), 10)
+	spec.uint(uint64(stRef), 3)
+	spec.uint(uint64(endRef), 3)
+	vAssertCellIs(c, spec, "slice-record")
+	zzvrt.Assert("one-reference-to-the-cell", c.RefsSize() == 1 && c.Refs()[0] == cell)
+	var got VmCellSlice
+	c.ResetCounters()
+	zzvrt.Assert("decode-ok", got.UnmarshalTLB(c, &Decoder{}) == nil)
+	zzvrt.Assert("same-bit-window", got.stBits == stBits && got.endBits == endBits)
+	zzvrt.Assert("same-ref-window", got.stRef == stRef && got.endRef == endRef)
+	zzvrt.Assert("same-cell", got.cell == cell)
+	zzvrt.Cover("window-with-references", endRef > stRef)
+	zzvrt.ObserveInt("end-ref", got.endRef)
+}
